@@ -18,6 +18,8 @@ Operations (lists, so that cases shrink and replay as plain JSON):
   ['sfault', side, nth, kind]             the nth sendto from now raises OSError / gaierror
   ['inject', side, src, hex]              raw datagram from src ('peer' | 'unknown' | address) to `side`
   ['xfrm_raw', side, hex]                 raw bytes on the XFRM socket
+  ['auto', seconds, dt, policy]           run by itself: ticks of dt, everything delivered FIFO; policy 'none' | 'blackhole' |
+                                          'tempfail_ike_rekey' (every IKE_SA rekey response is replaced by TEMPORARY_FAILURE)
   ['hdr', i, kind, k]                     copy of in-flight datagram i with its header SPIs / flags rewritten (unauthentic)
   ['rewrite', i, kind, arg]               keyed man-in-the-middle / differently-behaving peer: in-flight protected datagram i
                                           is decrypted with the reference keys, its payload list edited (EDITS below),
@@ -274,6 +276,25 @@ class Sim:
             w.inflight.remove(d)
             self.count('rewrite:' + op[2])
             self.deliver(nd, keep=True, op=op, kind='rewrite')
+        elif k == 'auto':
+            horizon, dt, policy = op[1], op[2], op[3]
+            t = 0.0
+            while t < horizon:
+                self.tick(dt, ['tick', dt])
+                t += dt
+                n = 0
+                while w.inflight and n < 60:
+                    d = w.inflight[0]
+                    n += 1
+                    if policy == 'tempfail_ike_rekey' and self.is_ike_rekey_response(d):
+                        nd = self.rewritten(d, 'error', 'TEMPORARY_FAILURE')
+                        w.inflight.remove(d)
+                        self.count('rewrite:error')
+                        self.deliver(nd, keep=True, op=op, kind='rewrite')
+                    elif policy == 'blackhole':
+                        w.inflight.remove(d)
+                    else:
+                        self.deliver(d, op=op)
         elif k == 'hdr':
             if not w.inflight:
                 self.count('noop')
@@ -325,6 +346,20 @@ class Sim:
             self._ob = OB.Observer(self.w)
         self._ob.sync()
         return self._ob
+
+    def is_ike_rekey_response(self, d):
+        if len(d.data) < 28 or d.data[18] != 36 or not d.data[19] & 0x20:
+            return False
+        ob = self.observer()
+        dec = ob.decoded.get(d.id)
+        if dec is None:
+            return False
+        sess, m = dec
+        req = sess.requests.get((not m['flags']['initiator'], m['msgid']))
+        if req is None:
+            return False
+        sa = W.find(req[0]['inner'], 'SA')
+        return bool(sa and sa[0]['proposals'] and sa[0]['proposals'][0]['protocol'] == 1)
 
     def rewritten(self, d, kind, arg=None):
         """-> new Dgram carrying the edited, correctly re-protected message, or None if not applicable"""
